@@ -134,6 +134,79 @@ def check_means(ctx):
                                   "schedule state self.%s is changed outside receive_reward" % t.attr, s.lineno)
 
 
+def check_phase_range(ctx):
+    """rho_i = rhomax^(2N/(2i+1)) lies in (0, rhomax) iff the exponent exceeds 1 iff the phase index i stays below N.  Invariant
+    i < N, by induction over receive_reward: every increment of self.phase is followed, before the method returns and before
+    phase or N change again, by the test `phase >= N`, whose true branch resets the phase to a constant 0 or 1 (N starts at 2 and
+    is only ever doubled); the constructor starts with phase < N."""
+    model = ctx.model
+    c = model.cls("POO")
+    rr = model.own_method("POO", "receive_reward")
+    q = "POO.receive_reward"
+    g = C.CFG(rr)
+
+    def is_inc(a):
+        return (isinstance(a, ast.AugAssign) and is_self_attr(a.target, "phase") and isinstance(a.op, ast.Add) and norm_src(a.value) == "1") or \
+            (isinstance(a, ast.Assign) and len(a.targets) == 1 and is_self_attr(a.targets[0], "phase") and
+             norm_src(a.value) in ("self.phase + 1", "1 + self.phase"))
+
+    def is_reset(a):
+        return isinstance(a, ast.Assign) and len(a.targets) == 1 and is_self_attr(a.targets[0], "phase") and isinstance(a.value, ast.Constant) and \
+            a.value.value in (0, 1) and not isinstance(a.value.value, bool)
+    incs = [n for n in g.nodes if n.kind == "stmt" and is_inc(n.ast)]
+    resets = [n for n in g.nodes if n.kind == "stmt" and is_reset(n.ast)]
+    writers = [n for n in g.nodes if n.kind == "stmt" and isinstance(n.ast, (ast.Assign, ast.AugAssign)) and
+               any(is_self_attr(t, "phase") or is_self_attr(t, "N") for t in (n.ast.targets if isinstance(n.ast, ast.Assign) else [n.ast.target]))]
+    other = [n for n in writers if n not in incs and n not in resets and not any(is_self_attr(t, "N") for t in (
+        n.ast.targets if isinstance(n.ast, ast.Assign) else [n.ast.target]))]
+    ctx.ob("R10-FORM", not other, c.file, q, "self.phase is only incremented by one or reset to 0/1",
+           "%s" % [norm_src(n.ast) for n in other] if other else "%d increment(s), %d reset(s)" % (len(incs), len(resets)), rr.lineno)
+    tests = []
+    for n in g.nodes:
+        if n.kind == "test":
+            atoms = [C.atom_of(e, pol) for e, pol in C.flatten_cond(n.ast.test, True)]
+            if atoms == [("<=", "self.N", "self.phase")]:
+                tests.append(n)
+    ok = bool(incs)
+    why = "every increment is followed by `phase >= N` -> reset"
+    for inc in incs:
+        # every path from the increment to the exit meets such a test before phase / N are written again
+        blockers = [w for w in writers if w is not inc]
+        free = g.paths_avoiding(inc, g.exit, tests)
+        if free:
+            ok = False
+            why = "after '%s' (line %s) the method can return without testing `phase >= N` (the phase index may reach N: rho_i >= rhomax)" % (
+                norm_src(inc.ast), inc.line)
+            break
+        for t in tests:
+            if not g.paths_avoiding(inc, t, [x for x in tests if x is not t]):
+                continue
+            if any(g.paths_avoiding(inc, w, tests) for w in blockers if w is not t):
+                ok = False
+                why = "phase or N is written between the increment and the test"
+            # true edge: reset before exit
+            for s2 in g.succ_by_label(t, True):
+                if s2 not in resets and g.paths_avoiding(s2, g.exit, resets):
+                    ok = False
+                    why = "`phase >= N` holds but the phase is not reset on some path (line %s)" % t.line
+    ctx.ob("R10-FORM", ok, c.file, q, "the phase index stays below N: rho_i in (0, rhomax)", why, rr.lineno)
+    init = model.own_method("POO", "__init__")
+    vals = {}
+    for st in ast.walk(init):
+        if isinstance(st, ast.Assign) and len(st.targets) == 1 and is_self_attr(st.targets[0]) and st.targets[0].attr in ("phase", "N") and \
+                isinstance(st.value, ast.Constant):
+            vals[st.targets[0].attr] = st.value.value
+    ok0 = "phase" in vals and "N" in vals and 0 <= vals["phase"] < vals["N"] and vals["N"] >= 2
+    ctx.ob("R10-FORM", ok0, c.file, "POO.__init__", "initially 0 <= phase < N and N >= 2", "%s" % vals, init.lineno)
+    # other methods do not write phase / N
+    for m, f2 in c.methods.items():
+        if m in ("__init__", "receive_reward"):
+            continue
+        w2 = [x for x in ast.walk(f2) if isinstance(x, ast.Attribute) and isinstance(x.ctx, ast.Store) and is_self_attr(x) and x.attr in ("phase", "N")]
+        ctx.ob("R10-FORM", not w2, c.file, "POO.%s" % m, "phase and N are advanced by receive_reward only", "%d store(s)" % len(w2), f2.lineno,
+               nontrivial=False)
+
+
 def run(ctx):
     model = ctx.model
     c = model.cls("POO")
@@ -178,6 +251,7 @@ def run(ctx):
     ctx.ob("R10-FORM", okp and okr, c.file, "POO", "creation vs round-robin: N <= 0.5*Dmax*ln(n/ln n), same test in pull and receive_reward",
            hit if (okp and okr) else "tests shared by pull and receive_reward: %s; none is the published one on every learner path" % sorted(pc & rc),
            pull.lineno)
+    ctx.attempt("R10-FORM", c.file, "POO.receive_reward", "phase index range", check_phase_range, ctx)
     ctx.attempt("R10-APPEND", c.file, "POO", "learner lists", check_append_only, ctx)
     ctx.attempt("R10-IDX", c.file, "POO.receive_reward", "indices", check_index, ctx)
     ctx.attempt("R10-MEAN", c.file, "POO.receive_reward", "running means", check_means, ctx)
